@@ -32,8 +32,10 @@ std::vector<PacketPtr> TECMP::Decoder::Decode(const void* data, const std::size_
 
 TecmpPayloadPtr TECMP::Decoder::GetCaptureModulePayload(const uint8_t* payloadData, const std::size_t size)
 {
+    // Generic part, software version and hardware version have to be inside the payload
+    constexpr std::size_t minCaptureModuleStatusSize = 18;
     CaptureModulePayload payload(payloadData, size);
-    if (payload.isValid())
+    if (payload.isValid() && size >= minCaptureModuleStatusSize)
         return std::make_shared<Payload>(payload);
 
     return {};
@@ -145,8 +147,10 @@ std::vector<TecmpPayloadPtr> TECMP::Decoder::GetInterfacePayload(const uint8_t* 
 }
 TecmpPayloadPtr TECMP::Decoder::GetCanPayload(const uint8_t* payloadData, const std::size_t size)
 {
+    // Arbitration ID, DLC and the data bytes the DLC announces have to be inside the payload
+    constexpr std::size_t canHeaderSize = sizeof(uint32_t) + sizeof(uint8_t);
     CanPayload payload(payloadData, size);
-    if (payload.isValid())
+    if (payload.isValid() && size >= canHeaderSize && payload.getDlc() <= size - canHeaderSize)
         return std::make_shared<Payload>(payload);
 
     return {};
@@ -154,8 +158,10 @@ TecmpPayloadPtr TECMP::Decoder::GetCanPayload(const uint8_t* payloadData, const 
 
 TecmpPayloadPtr TECMP::Decoder::GetLinPayload(const uint8_t* payloadData, const std::size_t size)
 {
+    // PID, data length and the data bytes it announces have to be inside the payload
+    constexpr std::size_t linHeaderSize = 2 * sizeof(uint8_t);
     LinPayload payload(payloadData, size);
-    if (payload.isValid())
+    if (payload.isValid() && size >= linHeaderSize && payload.getDataLength() <= size - linHeaderSize)
         return std::make_shared<Payload>(payload);
 
     return {};
